@@ -842,8 +842,11 @@ def oracle_restart(evs, meta):
             nxt = next((x for x in evs[k + 1:] if x.kind == "api" and x.f[0] == a and x.f[1] == "local_credentials"), None)
             if nxt is not None:
                 cur = (nxt.f[4], nxt.f[5])
-                if any(cur[0] == o[0] or cur[1] == o[1] for o in seen[a]):
-                    return "credentials after restart %r repeat an earlier ufrag or password of agent %s" % (cur, a)
+                # the 22-character password carries 132 random bits: a repeat is a defect.  The 4-character ufrag carries 24: over the tens of
+                # thousands of restarts of a thorough run two equal ufrags WITH different passwords are expected by chance (seen once in 40000
+                # scenarios), so a ufrag on its own only counts when it is the one the restart was meant to replace
+                if any(cur[1] == o[1] for o in seen[a]) or (seen[a] and cur[0] == seen[a][-1][0]):
+                    return "credentials after restart %r repeat an earlier password (or keep the ufrag) of agent %s" % (cur, a)
             # components announced GATHERING again (unless they already were)
             # collected from the signals emitted between this call and the next API call of that agent
             sigs_ = []
@@ -966,7 +969,10 @@ def oracle_gather(evs, meta):
     dones = [e for e in evs if e.kind == "sig" and e.f[1] == "gathering-done"]
     # completion: exactly once per gather call, in bounded time
     items = len(ips) * ncomp * ((1 if stun else 0) + len(turns))
-    bound = 2000 * 2 + 40 * items + 2000 + 6 * 300     # 4xRTO (+ one authenticated retry round), pacing, "late" answers, round trips
+    # 4xRTO per round of a transaction, pacing, "late" answers, round trips.  Rounds: the request, one authenticated retry after 401, and - with a server
+    # that answers 438 (stale nonce) - one more retry with the new nonce, each with its own retransmission budget under loss
+    rounds = 3 if any("438" in (m or "") for m in [stun] + list(meta.get("turns2") or turns)) else 2
+    bound = 2000 * rounds + 40 * items + 2000 + 6 * 300
     phases = []
     for k, g in enumerate(gathers):
         if g.f[-1] != "=1":
